@@ -269,9 +269,13 @@ class Gen:
         cuts = sorted(rng.sample(range(1, len(blocks)), n - 1)) if n > 1 \
             else []
         # (gtirb_layout cannot place an interval that starts with a
-        # zero-sized block falling through to the block at the same offset)
+        # zero-sized block falling through to the block at the same offset,
+        # nor one that ends with a zero-sized block behind a block that falls
+        # through into the next interval: which of two blocks at one offset
+        # is the first / last one depends on set order there)
         cuts = [c for c in cuts
-                if not blocks[c]["code"] or blocks[c]["items"]]
+                if (not blocks[c]["code"] or blocks[c]["items"]) and
+                (not blocks[c - 1]["code"] or blocks[c - 1]["items"])]
         ivs = []
         prev = 0
         for c in cuts + [len(blocks)]:
